@@ -90,6 +90,28 @@ def _innermost_repo_frame(tb):
     return where
 
 
+def _crashed_while_reporting(tb):
+    """'file:function' if the innermost harness frame (pbt/props/*.py) of the traceback sits inside a multi-line
+    ctx.violation(...) / ctx.unexpected(...) statement, else None"""
+    import linecache
+    frame = None
+    for fs in traceback.extract_tb(tb):
+        if os.sep + os.path.join("pbt", "props") + os.sep in os.path.abspath(fs.filename):
+            frame = fs
+    if frame is None:
+        return None
+    for back in range(0, 8):
+        ln = frame.lineno - back
+        if ln < 1:
+            break
+        text = linecache.getline(frame.filename, ln)
+        if ".violation(" in text or ".unexpected(" in text:
+            return "%s:%s" % (os.path.basename(frame.filename), frame.name)
+        if back and text.rstrip().endswith(":"):
+            break       # left the statement (a block header above)
+    return None
+
+
 def call(fn, *a, **k):
     """Call into the code under test; never lets its exceptions escape."""
     try:
@@ -236,8 +258,13 @@ class Ctx:
             fn(self, case)
         except HarnessError:
             raise
-        except Exception as e:  # harness bug: never a violation
-            raise HarnessError("check_case crashed on %s\n%s" % (canon(case)[:2000], traceback.format_exc())) from e
+        except Exception as e:  # harness bug: never a violation ...
+            where = _crashed_while_reporting(e.__traceback__)
+            if where is None:
+                raise HarnessError("check_case crashed on %s\n%s" % (canon(case)[:2000], traceback.format_exc())) from e
+            # ... unless the crash happened while the arguments of a ctx.violation(...) call were being put together: the
+            # oracle had already decided; only the description of the mismatch could not be formatted
+            self.violation("violation_with_unprintable_detail:" + where, {"error": repr(e)[:300]}, case)
         finally:
             self._current = None
             if tz:
